@@ -470,15 +470,17 @@ Definition obs_match (m : mobs) (o : obs) : bool :=
   | _, _ => false
   end.
 
-(* one dispatcher call: dispatch; reply = Some (endpoint, latency, is_error, rnd) or None (no reply) *)
-Definition e2e_call := (Z * option (option Z * Q * bool * option Q))%type.
-Definition e2e_labels (service : Z) (calls : list e2e_call) : list op :=
-  concat (map (fun c : e2e_call =>
-    map OpL (dispatch_labels service (fst c) ++
-             match snd c with
-             | Some (ep, lat, is_err, rnd) => reply_labels service (fst c) ep lat is_err rnd
-             | None => []
-             end)) calls).
+(* what the dispatcher does to varz, as a sequence of events: _DispatchMethod ran for a call
+   (immediately when Open() had completed, else when it completes), a reply was processed *)
+Inductive e2e_event :=
+| EvDispatch (method : Z)
+| EvReply (method : Z) (endpoint : option Z) (latency : Q) (is_error : bool) (rnd : option Q).
+Definition e2e_labels (service : Z) (evs : list e2e_event) : list op :=
+  concat (map (fun e : e2e_event =>
+    map OpL (match e with
+             | EvDispatch m => dispatch_labels service m
+             | EvReply m ep lat is_err rnd => reply_labels service m ep lat is_err rnd
+             end)) evs).
 
 (* compact literals for the generated case files (-1 stands for python's None in a source field) *)
 Definition oz (z : Z) : option Z := if z =? -1 then None else Some z.
@@ -489,7 +491,7 @@ Definition qi (n : Z) : Q := inject_Z n.
 
 Inductive case :=
 | CRun (cfg : config) (ops : list op) (expected : list obs)
-| CE2E (cfg : config) (service : Z) (calls : list e2e_call) (tail : list op) (expected : list obs)
+| CE2E (cfg : config) (service : Z) (calls : list e2e_event) (tail : list op) (expected : list obs)
       (* expected: observations of the tail ops (dump / aggregate) after the calls *)
 | CPct (values : list Q) (ps : list Q) (expected : list (option Q))
 | CDown (lst : list Q) (target : Z) (expected : list Q)
